@@ -14,6 +14,18 @@ TRUSTED_BASE = {
 }
 
 PROPS = {
+    "C13": {
+        "tests": ["TestC13"],
+        "design_ref": "DESIGN.md §3.13",
+        "level_text": "TODO",
+        "level_note": "TODO",
+    },
+    "C18": {
+        "tests": ["TestC18"],
+        "design_ref": "DESIGN.md §3.18",
+        "level_text": "TODO",
+        "level_note": "TODO",
+    },
     "C12": {
         "tests": ["TestC12"],
         "design_ref": "DESIGN.md §3.12",
